@@ -276,7 +276,7 @@ func (g *gen) next0() {
 }
 
 func forced(r *vlib.Run) {
-	n := r.N(800, 16000)
+	n := r.N(3200, 48000)
 	if r.Race {
 		n /= 10
 	}
@@ -286,6 +286,11 @@ func forced(r *vlib.Run) {
 			return
 		}
 		forcedTrial(r, trial, rng)
+		// Replay of a concurrent trial: same workload, repeated until the
+		// violation recurs (schedules are not reproducible).
+		for k := 0; r.OnlyTrial >= 0 && k < 300 && r.NViolations() == 0; k++ {
+			forcedTrial(r, trial, r.Rand("forced", trial))
+		}
 	})
 }
 
